@@ -93,6 +93,21 @@ fn check_one(role: Role, rust: &str, asn1: &str, attrs: Option<&Attrs>) -> Optio
     if !style_ok(role, &body) {
         return Some(("style", format!("{role:?} `{asn1}` rendered as `{rust}`: wrong case style for the role")));
     }
+    // the case rule itself, as the backend's own unit test and snapshots fix it: a hyphen is a
+    // word boundary, and so is an upper-case letter after a lower-case letter or a digit
+    // (`HelloWORLD` -> hello_world, `a2X` -> a2_x); title case capitalises the first letter of
+    // every hyphen-separated word and leaves the rest alone
+    let want = match role {
+        Role::Type => Some(crate::structure::title_case(asn1)),
+        Role::Component | Role::Module => Some(crate::structure::snake_case(asn1)),
+        Role::Value => Some(crate::structure::const_case(asn1)),
+        Role::Alternative | Role::Enumeral => Some(asn1.replace('-', "_")),
+    };
+    if let Some(w) = want {
+        if body != w {
+            return Some(("case-rule", format!("{role:?} `{asn1}` rendered as `{rust}`; the case rule gives `{w}` (word boundaries differ)")));
+        }
+    }
     if let Some(a) = attrs {
         if rust != asn1 && a.identifier.as_deref() != Some(asn1) {
             return Some((
@@ -174,6 +189,67 @@ fn eval(c: &Case) -> Result<Option<(&'static str, String)>, String> {
     }
 }
 
+fn legal_asn1_lower(s: &str) -> bool {
+    !s.is_empty()
+        && s.starts_with(|c: char| c.is_ascii_lowercase())
+        && !s.ends_with('-')
+        && !s.contains("--")
+        && s.chars().all(|c| c.is_ascii_alphanumeric() || c == '-')
+}
+
+/// greedy minimisation of a failing name: drop characters, then simplify the remaining ones,
+/// as long as the same clause keeps failing
+fn shrink_name(c: &Case, clause: &'static str, detail: String) -> (Case, String) {
+    let mut best = c.clone();
+    let mut best_detail = detail;
+    let still = |lower: &str| -> Option<String> {
+        if !legal_asn1_lower(lower) {
+            return None;
+        }
+        let k = Case { lower: lower.to_string(), upper: cap(lower) };
+        if !usable(&k) {
+            return None;
+        }
+        match eval(&k) {
+            Ok(Some((cl, d))) if cl == clause => Some(d),
+            _ => None,
+        }
+    };
+    // keyword cases keep their own upper spelling; only random names are minimised
+    if best.upper != cap(&best.lower) {
+        return (best, best_detail);
+    }
+    let mut progress = true;
+    while progress {
+        progress = false;
+        let chars: Vec<char> = best.lower.chars().collect();
+        for i in 0..chars.len() {
+            let cand: String = chars.iter().enumerate().filter(|(j, _)| *j != i).map(|(_, ch)| *ch).collect();
+            if let Some(d) = still(&cand) {
+                best = Case { upper: cap(&cand), lower: cand };
+                best_detail = d;
+                progress = true;
+                break;
+            }
+        }
+    }
+    let chars: Vec<char> = best.lower.chars().collect();
+    for i in 0..chars.len() {
+        let simple = if chars[i].is_ascii_uppercase() { 'A' } else if chars[i].is_ascii_digit() { '0' } else if chars[i] == '-' { '-' } else { 'a' };
+        if simple == chars[i] {
+            continue;
+        }
+        let mut cur: Vec<char> = best.lower.chars().collect();
+        cur[i] = simple;
+        let cand: String = cur.into_iter().collect();
+        if let Some(d) = still(&cand) {
+            best = Case { upper: cap(&cand), lower: cand };
+            best_detail = d;
+        }
+    }
+    (best, best_detail)
+}
+
 fn cap(s: &str) -> String {
     let mut c = s.chars();
     match c.next() {
@@ -220,12 +296,14 @@ pub fn run(tier: Tier, seed: u64, replay: Option<String>) -> i32 {
     ctx.rule = "every Rust strict/reserved/weak keyword (54) and N random legal ASN.1 identifiers (<=24 chars: letters, digits, single hyphens, \
                 digits next to case changes), each placed at once as module, type, component, CHOICE alternative, enumeral, named number and value \
                 name of a small module; oracle: syn accepts every generated identifier, the identifier is derived from the ASN.1 name (hyphen/case/ \
-                one r_/R_ escape), has the role's case style, and carries identifier = \"<ASN.1 name>\" whenever it differs (types, components, \
+                one r_/R_ escape), equals the case rule's rendering for the role (word boundaries included), and carries identifier = \"<ASN.1 name>\" whenever it differs (types, components, \
                 alternatives, enumerals); non-trivial = the name needs a transformation (hyphen, case or keyword); distinct by name"
         .into();
     ctx.assumptions = vec![
         "legality is judged by syn::parse_str::<syn::Ident> (rejects strict and reserved keywords)".into(),
-        "word-splitting details of snake/title casing are not asserted, only hyphen removal, case style and recoverability".into(),
+        "the case rule is taken from the backend's own unit test and snapshots (hyphen = word boundary; upper-case after lower-case or digit = word boundary; \
+         no boundary inside an upper-case run; title case capitalises each hyphen-separated word); the rendered name must equal it exactly, \
+         so that names the rule keeps apart (iA5String / iA5string) stay apart".into(),
     ];
     let run_case = |ctx: &mut Ctx, c: &Case, r: Result<Option<(&'static str, String)>, String>| {
         let nontrivial = c.lower.contains('-') || c.lower.chars().any(|ch| ch.is_uppercase()) || KEYWORDS.contains(&c.lower.as_str());
@@ -242,6 +320,8 @@ pub fn run(tier: Tier, seed: u64, replay: Option<String>) -> i32 {
                 if let Some((clause, detail)) = j {
                     ctx.class(&format!("fails:{clause}"));
                     if ctx.violations.len() < 4 {
+                        let (c, detail) = shrink_name(c, clause, detail);
+                        let c = &c;
                         ctx.fail(Failure {
                             finding: None,
                             what: format!("{clause}: {detail}"),
